@@ -1659,7 +1659,7 @@ def probe_v5(tier, seed):
             evals += 1
             if acc(pad + tok) != acc(tok):
                 bad.append(f"float() accepts exactly one of {tok!r} and {pad + tok!r}")
-    return {"probe": "V5", "evaluations": evals, "failures": bad[:3], "bound": "random finite doubles incl. raw bit patterns, subnormals, ±0, 1e300; blank-padded renderings of each (float ignores leading blanks)"}
+    return {"probe": "V5", "evaluations": evals, "failures": bad[:3], "bound": "random finite doubles incl. raw bit patterns, subnormals, ±0, 1e300; blank-padded renderings of each (float ignores leading blanks), 15 rejected tokens x 3 paddings (rejected iff the bare token is)"}
 
 
 def probe_v6(tier, seed):
